@@ -112,7 +112,11 @@ pub(crate) fn parse_directive(jsx_attr: &JSXAttr, is_component: bool) -> Directi
         }
     } else {
         modifiers = Some(splitted.map(Atom::from).collect());
-        value = Expr::Ident(quote_ident!("").into());
+        value = match &jsx_attr.value {
+            // `v-foo="bar"`: the string is the directive's value
+            Some(JSXAttrValue::Lit(lit)) => Expr::Lit(lit.clone()),
+            _ => Expr::Ident(quote_ident!("").into()),
+        };
     }
 
     Directive::Normal(NormalDirective {
